@@ -1,6 +1,7 @@
 //! Kani proof harnesses over the real h3 crates (engine K of /verif/DESIGN.md).
 #![allow(dead_code, unused_imports, clippy::all)]
 
+pub mod kbuf;
 pub mod refmodel;
 #[cfg(kani)]
 mod stubs;
@@ -8,3 +9,7 @@ mod stubs;
 mod c16;
 #[cfg(kani)]
 mod c18;
+#[cfg(kani)]
+mod c19;
+#[cfg(kani)]
+mod scratch;
